@@ -279,8 +279,28 @@ def run(ctx):
     n = ctx.n(300, 6000)
     cases = P.build_cases(ctx, n, gen_kwargs=dict(size=6), nsub_choices=(1, 1, 2, 3), compressed=False,
                           versions=(33, 33, 25, 19), editions=(4, 4, 3), shared=False)
+    # an element whose reference value was redefined by 203YYY, used under 201 / 202 / 207 (the new reference value
+    # takes part in the 207 scaling), and strings with leading blanks / short strings (the JSON text path of the fixpoint)
+    import tmplgen
+    rng = ctx.rng
+    pl = tmplgen.pools(33)
+    for k in range(ctx.n(30, 400)):
+        e = rng.choice([i for i in pl.numeric if pl.b[i][4] <= 24])
+        y = rng.choice([10, 12, 16, 20])
+        on = rng.choice([207001, 207002, 207003, 201130, 202129, 207001])
+        ids = [203000 + y, e, 203255, on, e, on // 1000 * 1000, e, 203000, e]
+        if k % 3 == 0:
+            ids = [rng.choice(pl.string)] + ids + [rng.choice(pl.string)]
+        cases.append({'ids': ids, 'version': 33, 'edition': 4, 'nsub': rng.choice([1, 2]), 'compressed': False, 'forced': '-',
+                      'seed': rng.randrange(1, 2 ** 32), 'maxrep': 3, 'features': {'203-definition-used-under-modifier': 1},
+                      'shared': False})
     P.attach_templates(cases)
     P.run_gen(cases)
+    import random
+    for c in cases:
+        if c.get('val_toks') and rng.random() < 0.25:
+            if P.vary_string_lengths(c, random.Random(c['seed'] ^ 0x5A5A5A), lead_blanks=True):
+                c['features']['strings-short-or-with-leading-blanks'] = 1
     P.run_encode(cases)
     P.run_decode(cases)
     for c in cases:
